@@ -8,6 +8,7 @@ rejected unconditionally (single-byte error detection of CRC-32/MPEG-2).
 import SpsdkVerif.Proofs.MbiVx
 import SpsdkVerif.Proofs.MbiRomNegCrc
 import SpsdkVerif.Spec.MbiRomVx
+import SpsdkVerif.Crypto.Break
 
 namespace SpsdkVerif.Mbi.Vx
 open SpsdkVerif SpsdkVerif.Misc SpsdkVerif.Crypto SpsdkVerif.Mbi
@@ -86,8 +87,8 @@ theorem vxrom_signed_inv (co : CryptoOps) (env : Spec.MbiRomVx.VxEnv) (img : Byt
   obtain ⟨_, h⟩ := romneg_need _ _ _ _ h
   refine ⟨?_, ?_, ?_, ?_⟩
   · simpa [Spec.MbiRomVx.dataStart] using h1
-  · rw [vxrom_signedData, beq_iff_eq] at h2; exact h2
-  · rw [vxrom_signedData, beq_iff_eq] at h3; exact h3
+  · exact beq_iff_eq.mp h2
+  · exact beq_iff_eq.mp h3
   · injection h with h; exact h.symm
 
 /-! ### acceptance -/
@@ -104,12 +105,10 @@ theorem vxrom_rd16_of_slice (img c : Bytes) (a n off : Nat) (h : slice img a (a 
     unfold slice
     rw [List.take_drop]
     congr 2
-    omega
+    all_goals omega
   have e2 : (c.drop off).take 2 = slice c off (off + 2) := by
     unfold slice
     rw [List.take_drop]
-    congr 2
-    omega
   rw [e1, e2, this]
 
 /-- signed Vx images pass the ROM checks; what is left are exactly the two signature obligations root key → ISK certificate
@@ -163,8 +162,6 @@ theorem vx_rom_accepts_crc (co : CryptoOps) (env : Spec.MbiRomVx.VxEnv) (cfg : C
   obtain ⟨e, hE, w1, w2, w3⟩ := vx_crc_describes co cfg signer hw
   have hn := (vxCfg .crc cfg hw).hn
   have hjh := ((vxCfg .crc cfg hw).hns (by decide)).2.2
-  have hframe : ∀ (hs : ∀ m, ((fun _ => List.replicate 64 (0 : UInt8)) m : Bytes).length = vxImgBcaOffset - vxImgSignatureOffset), True :=
-    fun _ => trivial
   -- the emitted length (the signature provider plays no role for CRC images)
   have hlen : 3072 ≤ e.length := by
     have h := vxCfg .crc cfg hw
@@ -179,22 +176,25 @@ theorem vx_rom_accepts_crc (co : CryptoOps) (env : Spec.MbiRomVx.VxEnv) (cfg : C
     vxc
     exact hn
   vxc
-  have hsub : Spec.MbiRom.sub e 3072 e.length = e.drop 3072 := by
+  have hsub : Spec.MbiRom.sub e Spec.MbiRomVx.dataStart e.length = e.drop 3072 := by
     unfold Spec.MbiRom.sub
     rw [List.take_of_length_le (Nat.le_refl _)]
+    rfl
   have hdl : (e.drop 3072).length = e.length - 3072 := List.length_drop
   refine ⟨e, { authenticated := [(964, 976), (3072, e.length)] }, hE, ?_, rfl⟩
   show Spec.MbiRomVx.romVxCrc e = _
   unfold Spec.MbiRomVx.romVxCrc
-  simp only [Spec.MbiRomVx.dataStart, Spec.MbiRomVx.bcaOff, Spec.MbiRomVx.bcaCrcStart, Spec.MbiRomVx.bcaCrcCount,
-    Spec.MbiRomVx.bcaCrcValue]
-  have r1 : Spec.MbiRom.rd32 e (960 + 4) = 3072 := w1
-  have r2 : Spec.MbiRom.rd32 e (960 + 8) = e.length - 3072 := by rw [← hdl]; exact w2
-  have r3 : Spec.MbiRom.rd32 e (960 + 12) = Crc.crc Spec.MbiRom.crcParams (e.drop 3072) := w3
-  rw [r1, r2, r3, show 3072 + (e.length - 3072) = e.length by omega, hsub]
-  have e1 : decide (e.length ≥ 3072) = true := by simp only [decide_eq_true_eq]; omega
-  rw [vxrom_need_ok e1]
-  simp only [beq_self_eq_true, and_self, decide_true, Spec.MbiRom.need, if_true, bind, Except.bind, pure, Except.pure]
+  have r1 : Spec.MbiRom.rd32 e (Spec.MbiRomVx.bcaOff + Spec.MbiRomVx.bcaCrcStart) = Spec.MbiRomVx.dataStart := w1
+  have r2 : Spec.MbiRom.rd32 e (Spec.MbiRomVx.bcaOff + Spec.MbiRomVx.bcaCrcCount) = e.length - Spec.MbiRomVx.dataStart := by
+    rw [show e.length - Spec.MbiRomVx.dataStart = e.length - 3072 from rfl, ← hdl]; exact w2
+  have r3 : Spec.MbiRom.rd32 e (Spec.MbiRomVx.bcaOff + Spec.MbiRomVx.bcaCrcValue) = Crc.crc Spec.MbiRom.crcParams (e.drop 3072) := w3
+  have hadd : Spec.MbiRomVx.dataStart + (e.length - Spec.MbiRomVx.dataStart) = e.length := by
+    simp only [Spec.MbiRomVx.dataStart]; omega
+  have e1 : decide (e.length ≥ Spec.MbiRomVx.dataStart) = true :=
+    decide_eq_true (show e.length ≥ Spec.MbiRomVx.dataStart from hlen)
+  simp only [Spec.MbiRom.need, r1, r2, r3, hadd, hsub, e1, beq_self_eq_true, and_self, decide_true, if_true, bind, Except.bind,
+    pure, Except.pure]
+  rfl
 
 /-- plain Vx images: nothing to authenticate -/
 theorem vx_rom_accepts_plain (co : CryptoOps) (env : Spec.MbiRomVx.VxEnv) (cfg : Cfg) (signer : Signer)
@@ -207,11 +207,9 @@ theorem vx_rom_accepts_plain (co : CryptoOps) (env : Spec.MbiRomVx.VxEnv) (cfg :
   simp only [Bool.false_eq_true, if_false] at hrl
   refine ⟨_, {}, vx_export_plain co h signer, ?_⟩
   have hn := h.hn
-  have e1 : decide ((vxRaw .plain cfg).length ≥ Spec.MbiRomVx.dataStart) = true := by
-    rw [hrl]; simp only [Spec.MbiRomVx.dataStart, decide_eq_true_eq]; vxc; omega
-  show (Spec.MbiRom.need _ _ >>= fun _ => pure {}) = _
-  rw [vxrom_need_ok e1]
-  rfl
+  have e1 : decide ((vxRaw .plain cfg).length ≥ Spec.MbiRomVx.dataStart) = true :=
+    decide_eq_true (by rw [hrl]; exact hn)
+  simp only [Spec.MbiRomVx.romVx, Spec.MbiRom.need, e1, if_true, bind, Except.bind, pure, Except.pure]
 
 /-! ### tamper reductions -/
 
@@ -236,33 +234,23 @@ theorem vxrom_dataToSign_set (l : Bytes) (i : Nat) (x y : UInt8) (hx : l[i]? = s
   intro he
   unfold dataToSign slice at he
   vxc
-  have hget : ∀ j, ((l.set i y).take 864 ++ ((l.set i y).take 1024).drop 960 ++ (l.set i y).drop 3072)[j]?
-      = (l.take 864 ++ (l.take 1024).drop 960 ++ l.drop 3072)[j]? := fun j => by rw [he]
   have hy : (l.set i y)[i]? = some y := List.getElem?_set_self hn
+  have lA : ((l.set i y).take 864).length = (l.take 864).length := by simp
+  have lB : (((l.set i y).take 1024).drop 960).length = ((l.take 1024).drop 960).length := by simp
+  have h12 := List.append_inj he (by simp only [List.length_append]; rw [lA, lB])
+  have h1 := List.append_inj h12.1 lA
   rcases hp with hp | hp | hp
-  · have := hget i
-    rw [List.append_assoc, List.append_assoc, List.getElem?_append_left (by simp only [List.length_take, List.length_set]; omega),
-      List.getElem?_append_left (by simp only [List.length_take]; omega), List.getElem?_take, List.getElem?_take,
-      if_pos hp, if_pos hp, hy, hx] at this
+  · have := congrArg (fun z => z[i]?) h1.1
+    simp only [List.getElem?_take, if_pos hp] at this
+    rw [hy, hx] at this
     exact hxy (by simpa using this.symm)
-  · have l1 : ((l.set i y).take 864).length = 864 := by simp only [List.length_take, List.length_set]; omega
-    have l2 : (l.take 864).length = 864 := by simp only [List.length_take]; omega
-    have := hget (864 + (i - 960))
-    rw [List.append_assoc, List.append_assoc, List.getElem?_append_right (by omega), List.getElem?_append_right (by omega),
-      l1, l2, show 864 + (i - 960) - 864 = i - 960 by omega,
-      List.getElem?_append_left (by simp only [List.length_drop, List.length_take, List.length_set]; omega),
-      List.getElem?_append_left (by simp only [List.length_drop, List.length_take]; omega),
-      List.getElem?_drop, List.getElem?_drop, List.getElem?_take, List.getElem?_take,
-      show 960 + (i - 960) = i by omega, if_pos hp.2, if_pos hp.2, hy, hx] at this
+  · have := congrArg (fun z => z[i - 960]?) h1.2
+    simp only [List.getElem?_drop, List.getElem?_take, show 960 + (i - 960) = i by omega, if_pos hp.2] at this
+    rw [hy, hx] at this
     exact hxy (by simpa using this.symm)
-  · have l1 : ((l.set i y).take 864 ++ ((l.set i y).take 1024).drop 960).length = 928 := by
-      simp only [List.length_append, List.length_drop, List.length_take, List.length_set]; omega
-    have l2 : (l.take 864 ++ (l.take 1024).drop 960).length = 928 := by
-      simp only [List.length_append, List.length_drop, List.length_take]; omega
-    have := hget (928 + (i - 3072))
-    rw [List.getElem?_append_right (by omega), List.getElem?_append_right (by omega), l1, l2,
-      show 928 + (i - 3072) - 928 = i - 3072 by omega, List.getElem?_drop, List.getElem?_drop,
-      show 3072 + (i - 3072) = i by omega, hy, hx] at this
+  · have := congrArg (fun z => z[i - 3072]?) h12.2
+    simp only [List.getElem?_drop, show 3072 + (i - 3072) = i by omega] at this
+    rw [hy, hx] at this
     exact hxy (by simpa using this.symm)
 
 /-- SIGNED: a changed byte of the signed ranges (header below the digest, BCA, data) that the ROM still accepts with its
@@ -289,10 +277,10 @@ theorem vx_tamper_rejected_signed (co : CryptoOps) (cfg : Cfg) (signer : Signer)
   have hob := hobs (.ecdsa (slice (e.set i y) 1048 1112) (dataToSign (e.set i y)) (slice (e.set i y) 896 960))
     (by rw [ha]; simp [vxAccepted])
   simp only [holdsEcdsa] at hob
-  have hrange : i < 896 ∨ 1176 ≤ i := by rcases hp with hp | hp | hp <;> omega
+  have hrange : i < 1048 ∨ 1112 ≤ i := by rcases hp with hp | hp | hp <;> omega
   have hrange2 : i < 896 ∨ 960 ≤ i := by rcases hp with hp | hp | hp <;> omega
   have k1 : slice (e.set i y) 1048 1112 = co.pubOf sk := by
-    rw [vxrom_slice_set e i 1048 1112 y (by omega), vx_slice_slice e cfg.cert 1040 1176 8 72 d5 (by omega), hpub]
+    rw [vxrom_slice_set e i 1048 1112 y hrange, vx_slice_slice e cfg.cert 1040 1176 8 72 d5 (by omega), hpub]
   have k2 : slice (e.set i y) 896 960 = co.sign alg sk (dataToSign e) r := by
     rw [vxrom_slice_set e i 896 960 y hrange2, d4, hsigner]
   rw [k1, k2] at hob
@@ -336,9 +324,8 @@ theorem vx_tamper_rejected_crc (co : CryptoOps) (env : Spec.MbiRomVx.VxEnv) (cfg
   obtain ⟨_, hok⟩ := romneg_need _ _ _ _ hok
   simp only [Spec.MbiRomVx.dataStart, Spec.MbiRomVx.bcaOff, Spec.MbiRomVx.bcaCrcStart, Spec.MbiRomVx.bcaCrcCount,
     Spec.MbiRomVx.bcaCrcValue] at hok
-  obtain ⟨g1, hok⟩ := romneg_need _ _ _ _ hok
+  obtain ⟨_, hok⟩ := romneg_need _ _ _ _ hok
   obtain ⟨g2, _⟩ := romneg_need _ _ _ _ hok
-  rw [romneg_rd32_same e i _ y (Or.inr (by omega)), romneg_rd32_same e i _ y (Or.inr (by omega))] at g1
   rw [romneg_rd32_same e i _ y (Or.inr (by omega)), romneg_rd32_same e i _ y (Or.inr (by omega)),
     romneg_rd32_same e i _ y (Or.inr (by omega))] at g2
   have r1 : Spec.MbiRom.rd32 e (960 + 4) = 3072 := w1
